@@ -1,0 +1,95 @@
+//go:build verif
+
+package definition
+
+import (
+	"github.com/zenon-network/go-zenon/common/db"
+	"github.com/zenon-network/go-zenon/vm/constants"
+)
+
+// Verification-only exports (build tag verif). Read-only iterators over whole key ranges of the embedded
+// contracts' storage, built from the package's own unexported prefixes and parse functions, so that an
+// external harness can sum a contract's recorded liabilities and compare them with its balance.
+
+func iterateVerif(context db.DB, prefix []byte, f func(key, value []byte) error) error {
+	iterator := context.NewIterator(prefix)
+	defer iterator.Release()
+	for {
+		if !iterator.Next() {
+			return iterator.Error()
+		}
+		// the iterator reuses its buffers and abi.Unpack keeps sub-slices of its input for `bytes` fields: copy
+		key := append([]byte{}, iterator.Key()...)
+		value := append([]byte{}, iterator.Value()...)
+		if err := f(key, value); err == constants.ErrDataNonExistent {
+			continue
+		} else if err != nil {
+			return err
+		}
+	}
+}
+
+// AllFusionInfoVerif returns every fusion entry of the plasma contract (all owners).
+func AllFusionInfoVerif(context db.DB) ([]*FusionInfo, error) {
+	list := make([]*FusionInfo, 0)
+	err := iterateVerif(context, fusionInfoKeyPrefix, func(key, value []byte) error {
+		info, err := parseFusionInfo(key, value)
+		if err == nil {
+			list = append(list, info)
+		}
+		return err
+	})
+	return list, err
+}
+
+// AllFusedAmountVerif returns the per-beneficiary fused totals of the plasma contract.
+func AllFusedAmountVerif(context db.DB) ([]*FusedAmount, error) {
+	list := make([]*FusedAmount, 0)
+	err := iterateVerif(context, fusedAmountKeyPrefix, func(key, value []byte) error {
+		info, err := parseFusedAmount(key, value)
+		if err == nil {
+			list = append(list, info)
+		}
+		return err
+	})
+	return list, err
+}
+
+// AllHtlcInfoVerif returns every hash-time-locked entry of the htlc contract.
+func AllHtlcInfoVerif(context db.DB) ([]*HtlcInfo, error) {
+	list := make([]*HtlcInfo, 0)
+	err := iterateVerif(context, htlcInfoKeyPrefix, func(key, value []byte) error {
+		info, err := parseHtlcInfo(key, value)
+		if err == nil {
+			list = append(list, info)
+		}
+		return err
+	})
+	return list, err
+}
+
+// AllHtlcProxyUnlockInfoVerif returns every explicit proxy-unlock setting of the htlc contract.
+func AllHtlcProxyUnlockInfoVerif(context db.DB) ([]*HtlcProxyUnlockInfo, error) {
+	list := make([]*HtlcProxyUnlockInfo, 0)
+	err := iterateVerif(context, htlcProxyUnlockInfoKeyPrefix, func(key, value []byte) error {
+		info, err := parseHtlcProxyUnlockInfo(key, value)
+		if err == nil {
+			list = append(list, info)
+		}
+		return err
+	})
+	return list, err
+}
+
+// AllQsrDepositVerif returns every QSR deposit recorded in a contract's storage (pillar, sentinel).
+func AllQsrDepositVerif(context db.DB) ([]*QsrDeposit, error) {
+	list := make([]*QsrDeposit, 0)
+	err := iterateVerif(context, qsrDepositKeyPrefix, func(key, value []byte) error {
+		info, err := parseQsrDeposit(key, value)
+		if err == nil {
+			list = append(list, info)
+		}
+		return err
+	})
+	return list, err
+}
